@@ -37,6 +37,7 @@ static ev_t *evs; static long nev = 0, capev = 0;
 static int dumped_once = 0;
 static pthread_mutex_t evlock = PTHREAD_MUTEX_INITIALIZER; /* only contended outside serialized mode */
 
+
 /* ---------- ids ---------- */
 typedef struct { const void **tab; long n, cap; } idns_t;
 typedef struct { const void *alias; long id; } alias_t;
@@ -123,9 +124,20 @@ static void log_ev(const char *name, int n, va_list ap){
   nev++; nonprogress = 0; activity++;
   if (name[0] == 'S' && !strcmp(name, "SchedRun")) idle[me] = 0;
 }
+/* "free recording": outside the serialized mode (initialisation, finalisation, plain pthreads) events are
+   appended under a mutex; the mutex order is the recorded order */
+static volatile int freerec = 0;
+void vrt_free_record(int on){ freerec = on; }
+void vrt_set_out(const char *path){ O.out = path; }
 void myth_verif_ev(const char *name, int n, ...){
   va_list ap;
-  if (!myth_verif_active()) return;
+  if (!myth_verif_active()){
+    if (!freerec) return;
+    pthread_mutex_lock(&evlock);
+    { int saved = me; if (me < 0) me = 99; va_start(ap, n); log_ev(name, n, ap); va_end(ap); me = saved; }
+    pthread_mutex_unlock(&evlock);
+    return;
+  }
   va_start(ap, n); log_ev(name, n, ap); va_end(ap);
 }
 void myth_verif_evz(const char *name, int n, ...){
@@ -154,7 +166,13 @@ void myth_verif_evlock(const char *name, const void *lock){
 }
 void vrt_user(const char *name, int n, ...){
   va_list ap;
-  if (!myth_verif_active()) return;
+  if (!myth_verif_active()){
+    if (!freerec) return;
+    pthread_mutex_lock(&evlock);
+    { int saved = me; if (me < 0) me = 99; va_start(ap, n); log_ev(name, n, ap); va_end(ap); me = saved; }
+    pthread_mutex_unlock(&evlock);
+    return;
+  }
   va_start(ap, n); log_ev(name, n, ap); va_end(ap);
 }
 long vrt_nevents(void){ return nev; }
